@@ -101,6 +101,12 @@ fn describe_key(p: &Project, ns: &Option<String>, loc: &str, path: &[String]) ->
 
 /// write, build, run and judge a set of cases
 pub fn execute(rep: &Reporter, pid: &str, cases: Vec<Case>) {
+    let _ = execute_reporting(rep, pid, cases);
+}
+
+/// as `execute`; returns the probes whose crate did not compile (each already reported as a violation)
+pub fn execute_reporting(rep: &Reporter, pid: &str, cases: Vec<Case>) -> Vec<String> {
+    let mut not_built = vec![];
     for c in &cases {
         if let Err(e) = c.probe.write() {
             vmodel::report::machinery_fail(&format!("cannot write probe {}: {e}", c.probe.name));
@@ -126,6 +132,7 @@ pub fn execute(rep: &Reporter, pid: &str, cases: Vec<Case>) {
                 format!("{pid}/L3: generated code does not compile for a valid project (probe {}): {}", c.probe.name, vmodel::report::truncate(&errs.join(" | "), 600)),
                 json!({"probe_dir": c.probe.dir().display().to_string(), "stderr_tail": vmodel::report::truncate(&b.stderr, 3000)}),
             );
+            not_built.push(c.probe.name.clone());
             continue;
         }
         match run(&c.probe.name) {
@@ -163,6 +170,7 @@ pub fn execute(rep: &Reporter, pid: &str, cases: Vec<Case>) {
             }
         }
     }
+    not_built
 }
 
 const PAYLOADS: [&str; 12] = ["", " ", "  ", "é", "🎉", "\u{a0}", "\"", "\\", "\n", ">", "}", "a b"];
@@ -180,6 +188,39 @@ fn c01(tier: Tier) -> i32 {
             let mut c2 = i + 5;
             label_texts(&mut b, &format!("fr{}", values.len()), &PAYLOADS, &mut c2);
             values.push((s(a), s(b)));
+        }
+    }
+    // literal segments made of white space only (between two variables, sole child of a component, leading / trailing):
+    // "nothing is dropped" holds for them too, in the string back-end as in the view
+    {
+        const BLANKS: [&str; 5] = [" ", "\u{a0}", "\t", "  ", "\n "];
+        fn blank(segs: &mut [Seg], counter: &mut usize) -> usize {
+            let mut n = 0;
+            for s in segs {
+                match s {
+                    Seg::Text(t) => {
+                        *t = BLANKS[*counter % BLANKS.len()].to_string();
+                        *counter += 1;
+                        n += 1;
+                    }
+                    Seg::Comp { children, .. } => n += blank(children, counter),
+                    _ => {}
+                }
+            }
+            n
+        }
+        let mut counter = 0usize;
+        for n in 2..=3 {
+            for f in forests(n, &["x", "y"], &["b"]) {
+                let mut a = f.clone();
+                let texts = blank(&mut a, &mut counter);
+                if texts == 0 || texts == count_nodes(&a) {
+                    continue;
+                }
+                let mut b: Vec<Seg> = f.iter().rev().cloned().collect();
+                blank(&mut b, &mut counter);
+                values.push((s(a), s(b)));
+            }
         }
     }
     // whitespace inside tags and variables
@@ -279,7 +320,7 @@ fn c01(tier: Tier) -> i32 {
     rep.nontriv(n_values as u64);
     rep.sample(json!({"probe_call": "td_string!(Locale::fr, k17, x = \"«x»\", <b> = \"b\").to_string()", "value_source": val_json(&values[17].1)}));
     let mut cov = serde_json::Map::new();
-    cov.insert("rule".into(), json!(format!("every forest of Text|Var{{x,y}}|Comp{{b,i}} with <= {max_nodes} nodes (self-identifying text, rotating payloads incl. quotes, backslash, newline, NBSP, astral), whitespace variants, every JSON literal type (same and mixed across locales), 27- and 60-segment values; placed at top level, in nested subkeys and in two namespaces with swapped values (thorough: a 17-locale project); each key in each locale through td_string!, td_display! and td! -> to_html() of a probe crate compiled with the real proc-macro; expected text from the reference renderer; distinct_nontrivial = distinct (en,fr) value pairs")));
+    cov.insert("rule".into(), json!(format!("every forest of Text|Var{{x,y}}|Comp{{b,i}} with <= {max_nodes} nodes (self-identifying text, rotating payloads incl. quotes, backslash, newline, NBSP, astral), every forest of 2-3 nodes whose text segments are white space only (space, NBSP, tab, two spaces, newline), whitespace variants inside tags and variables, every JSON literal type (same and mixed across locales), 27- and 60-segment values; placed at top level, in nested subkeys and in two namespaces with swapped values (thorough: a 17-locale project); each key in each locale through td_string!, td_display! and td! -> to_html() of a probe crate compiled with the real proc-macro; expected text from the reference renderer; distinct_nontrivial = distinct (en,fr) value pairs")));
     cov.insert("exhaustive".into(), json!(true));
     rep.finish(cov, &["view output is normalised like the repository's tests (comments, hydration keys and <!> markers stripped, entities decoded)"])
 }
@@ -430,6 +471,25 @@ fn c02(tier: Tier) -> i32 {
                         }
                     }
                 }
+                // a view built under one locale and rendered after the context moved to another one shows the locale
+                // being rendered - tracked (t!) or not (tu!): every flavour read at that moment gives that text
+                for fl in [Flavour::T, Flavour::Tu] {
+                    if path.len() > 1 && tier == Tier::Quick {
+                        continue;
+                    }
+                    for from in &m.locales {
+                        if from == loc {
+                            continue;
+                        }
+                        let cnt = if sig.counts.is_empty() { Num::I(0) } else { Num::I(2) };
+                        let Some((tail, env)) = args_for(&sig, fl, cnt) else { continue };
+                        let Some(text) = expected(&m, &ns, loc, &path, &env) else { continue };
+                        let scs: Vec<Scoping> = if segments.len() > 1 { vec![Scoping::None, Scoping::At(1)] } else { vec![Scoping::None] };
+                        for sc in scs {
+                            c.add(scoped_call_switch(fl, sc, &locale_variant(from), Some(&locale_variant(loc)), &segments, &tail), format!("{fl:?} {sc:?} {key} built @{from} rendered @{loc}"), text.clone());
+                        }
+                    }
+                }
                 // const accessor chain for plain literals
                 if sig.is_empty() {
                     if let Ok(r) = m.resolve(&ns, loc, &path) {
@@ -448,7 +508,7 @@ fn c02(tier: Tier) -> i32 {
     rep.nontriv(n_keys * m.locales.len() as u64);
     rep.sample(json!({"probe_call": "{ ctx().set_locale(Locale::de); let c = ctx(); let c = scope_i18n!(c, main); let c = scope_i18n!(c, g); t_string!(c, h.interp, x = \"«x»\", y = \"«y»\").to_string() }"}));
     let mut cov = serde_json::Map::new();
-    cov.insert("rule".into(), json!("project with one key of every kind (string, number, bool, interpolation, components, u8 range, f32 range, cardinal plural, ordinal plural, foreign keys plain / with renamed count / with literal count) at top level and at depth 3, in two namespaces, three locales (de inherits fr, holds explicit nulls and gaps); every key x every locale x 9 flavours (td/t/tu x view/string/display) x scoping at every proper prefix (one step, chained one segment at a time, use_i18n_scoped!) x counts {0,1,2,5}, plus the const accessor chain for plain literals; context flavours run on a natively created I18nContext whose locale is set before each call; every record must equal the reference rendering (hence all flavours agree pairwise); quick tier thins view flavours under scoping"));
+    cov.insert("rule".into(), json!("project with one key of every kind (string, number, bool, interpolation, components, u8 range, f32 range, cardinal plural, ordinal plural, foreign keys plain / with renamed count / with literal count) at top level and at depth 3, in two namespaces, three locales (de inherits fr, holds explicit nulls and gaps); every key x every locale x 9 flavours (td/t/tu x view/string/display) x scoping at every proper prefix (one step, chained one segment at a time, use_i18n_scoped!) x counts {0,1,2,5}, plus the const accessor chain for plain literals, plus t! / tu! views built under every other locale and rendered after the context moved to the locale in question; context flavours run on a natively created I18nContext whose locale is set before each call; every record must equal the reference rendering (hence all flavours agree pairwise); quick tier thins view flavours under scoping"));
     cov.insert("exhaustive".into(), json!(tier == Tier::Thorough));
     rep.finish(cov, &["tu!/tu_string! read the context untracked: same value, no subscription (subscription is not observable here)"])
 }
@@ -712,6 +772,32 @@ fn render_page2(eager: impl Fn() + Clone + Send + Sync + 'static, touch: impl Fn
     });
     html
 }
+/// `outer` is read under the page's provider, `inner` below a `<I18nSubContextProvider>` nested in it (eagerly while
+/// its children are built when `inner_eager`, else at render time)
+fn render_page_sub(outer: impl Fn() + Clone + Send + Sync + 'static, inner: impl Fn() + Clone + Send + Sync + 'static, inner_eager: bool) -> String {
+    struct Noop;
+    impl any_spawner::CustomExecutor for Noop {
+        fn spawn(&self, _f: any_spawner::PinnedFuture<()>) {}
+        fn spawn_local(&self, _f: any_spawner::PinnedLocalFuture<()>) {}
+        fn poll_local(&self) {}
+    }
+    let _ = any_spawner::Executor::init_custom_executor(Noop);
+    let owner = Owner::new();
+    owner.with(|| {
+        let opts = leptos_i18n::context::UseLocalesOptions::default().ssr_lang_header_getter(|| None);
+        let inner2 = inner.clone();
+        view! {
+            <I18nContextProvider enable_cookie=false ssr_lang_header_getter=opts>
+                <p>{move || { outer(); "outer" }}</p>
+                <I18nSubContextProvider initial_locale=Signal::derive(|| Locale::en) ssr_lang_header_getter=leptos_i18n::context::UseLocalesOptions::default().ssr_lang_header_getter(|| None)>
+                    {if inner_eager { inner2(); } "sub"}
+                    <p>{move || { if !inner_eager { inner(); } "inner" }}</p>
+                </I18nSubContextProvider>
+            </I18nContextProvider>
+        }
+        .to_html()
+    })
+}
 "##;
 
 fn c17(tier: Tier, pid: &str) -> i32 {
@@ -844,6 +930,26 @@ fn c17(tier: Tier, pid: &str) -> i32 {
             String::new(),
         );
         n_pages += 1;
+        // units read only below a sub-context provider nested in the page's provider are units used by the request
+        for (o, i) in [(None, 0usize), (Some(0usize), live_units.len() - 1), (Some(live_units.len() - 1), 0), (Some(0), 0)] {
+            for eager in [false, true] {
+                let read = |u: usize| {
+                    let (loc, ns) = live_units[u];
+                    let key = if namespaced { format!("{ns}.s000") } else { "s000".to_string() };
+                    format!("let _ = futures::executor::block_on(async {{ td_string!({}, {key}).await.to_string() }}); ", locale_variant(loc))
+                };
+                let outer = o.map(read).unwrap_or_default();
+                let mut touched = vec![];
+                if let Some(o) = o {
+                    touched.push(live_units[o]);
+                }
+                if !touched.contains(&live_units[i]) {
+                    touched.push(live_units[i]);
+                }
+                c.add(format!("render_page_sub(move || {{ {outer} }}, move || {{ {} }}, {eager})", read(i)), format!("PAGE sub-context ({}) touched {touched:?}", if eager { "eager" } else { "lazy" }), String::new());
+                n_pages += 1;
+            }
+        }
         cases.push((c, tables, namespaced));
     }
     {
@@ -1011,7 +1117,7 @@ fn c17(tier: Tier, pid: &str) -> i32 {
     rep.nontriv(n_pages);
     rep.sample(json!({"strings": ["\"\\", "</script>", "he said \"hi\" \\ </script> end", "\u{2028}a"]}));
     let mut cov = serde_json::Map::new();
-    cov.insert("rule".into(), json!("two probe crates built with dynamic_load + ssr (two namespaces x two locales; no namespaces): translation strings = all 196 two-character strings over 14 hostile characters plus </script>, </SCRIPT , <!--, -->, ]]>, U+2029, quotes, backtick, ${x}, newlines alone and inside a sentence with quotes and backslashes, and every sequence of <= 2 (thorough 3) tokens over <!--, <script>, <script , </script>, -->, <!-->, x; pages = <I18nContextProvider> rendered natively to HTML for every ordered subset of touched units (65 with namespaces, 5 without) and a context-driven render with a locale switch in the middle; third probe crate: every such token sequence of <= 2 tokens (+ a trailing x; thorough <= 3) alone in a namespace of its own, one page per namespace, plus two namespaces whose values are variables only (empty string tables) rendered alone, before / after another unit and both together with a third unit in three orders (an empty table is then never the last unit written), every page of <= 2 units also with the units read eagerly - while the provider's children are built, as a t_string! in a component body does - and with the first unit eager and the rest lazy, and a namespace whose name (`dash-ns`) differs from its Rust identifier; oracle: the <script> element is cut the way the WHATWG tokenizer cuts it (script data / escaped / double escaped states: after `<!--` then `<script` an end tag no longer closes the element), its body must be `window.__LEPTOS_I18N_TRANSLATIONS = <array literal>;` read by an ECMAScript literal reader (all JS escapes, no raw line terminators in strings), and its decoded value must list exactly the touched (locale, unit) pairs, each with the unit's table as exported by the generated server function"));
+    cov.insert("rule".into(), json!("two probe crates built with dynamic_load + ssr (two namespaces x two locales; no namespaces): translation strings = all 196 two-character strings over 14 hostile characters plus </script>, </SCRIPT , <!--, -->, ]]>, U+2029, quotes, backtick, ${x}, newlines alone and inside a sentence with quotes and backslashes, and every sequence of <= 2 (thorough 3) tokens over <!--, <script>, <script , </script>, -->, <!-->, x; pages = <I18nContextProvider> rendered natively to HTML for every ordered subset of touched units (65 with namespaces, 5 without) and a context-driven render with a locale switch in the middle; third probe crate: every such token sequence of <= 2 tokens (+ a trailing x; thorough <= 3) alone in a namespace of its own, one page per namespace, plus two namespaces whose values are variables only (empty string tables) rendered alone, before / after another unit and both together with a third unit in three orders (an empty table is then never the last unit written), every page of <= 2 units also with the units read eagerly - while the provider's children are built, as a t_string! in a component body does - and with the first unit eager and the rest lazy, and a namespace whose name (`dash-ns`) differs from its Rust identifier; oracle: the <script> element is cut the way the WHATWG tokenizer cuts it (script data / escaped / double escaped states: after `<!--` then `<script` an end tag no longer closes the element), every script element of the page is evaluated in document order - each body must be `window.__LEPTOS_I18N_TRANSLATIONS = <array literal>;` and the value of the last one is what the client finds -, it is read by an ECMAScript literal reader (all JS escapes, no raw line terminators in strings), and its decoded value must list exactly the touched (locale, unit) pairs, each with the unit's table as exported by the generated server function"));
     cov.insert("exhaustive".into(), json!(true));
     rep.finish(cov, &["the hydrate-side consumer (init_translations, serde_wasm_bindgen) needs a browser: not executed"])
 }
@@ -1247,6 +1353,15 @@ fn cmp(id: usize, observed: impl FnOnce() -> String, prefix: &str, expected: D) 
         }
     }
 }
+/// the same comparison with the library call made on a thread of its own (the provider was registered on the main one)
+fn cmp_thread(id: usize, observed: impl FnOnce() -> String + Send + 'static, prefix: &str, expected: D) {
+    let r = std::thread::spawn(move || std::panic::catch_unwind(std::panic::AssertUnwindSafe(observed))).join();
+    let msg = |e: Box<dyn std::any::Any + Send>| e.downcast_ref::<String>().cloned().or_else(|| e.downcast_ref::<&str>().map(|s| s.to_string())).unwrap_or_default();
+    match r {
+        Ok(Ok(s)) => cmp(id, move || s, prefix, expected),
+        Ok(Err(e)) | Err(e) => p(id, format!("PANIC on a thread other than the one that registered the provider: {}", msg(e))),
+    }
+}
 "##;
 
 fn c18(tier: Tier) -> i32 {
@@ -1467,6 +1582,24 @@ fn c18(tier: Tier) -> i32 {
                 }
             }
         }
+        // .. and from other threads: first uses of a formatter there, and formatters the main thread already built
+        for (i, fc) in pcases.iter().enumerate() {
+            if i % 4 != 0 {
+                continue;
+            }
+            for l in plocales {
+                let lv = locale_variant(l);
+                let (sv, dv): (String, String) = match fc.family {
+                    "number" | "currency" => ("-1234.5f64".into(), "-1234.5".into()),
+                    _ => ("[\"X\", \"Y\"]".into(), "&[\"X\", \"Y\"]".into()),
+                };
+                let direct = fc.direct.replace("$L", &format!("{l:?}")).replace("$V", &dv);
+                let id = c.next_id;
+                c.next_id += 1;
+                c.probe.stmts.push(format!("cmp_thread({id}, || td_string!({lv}, f{i}, v = {sv}).to_string(), \"[{l}]\", {direct});"));
+                c.expected.insert(id, Expect { probe: c.probe.name.clone(), what: format!("custom provider, another thread: td_string {} @{l}", fc.text), text: "^OK|^SKIP-ICU".into(), suffix: false });
+            }
+        }
         select_workspace(true);
         execute(&rep, "C18", vec![c]);
         select_workspace(false);
@@ -1474,7 +1607,7 @@ fn c18(tier: Tier) -> i32 {
     rep.nontriv(n_cases as u64 * locales.len() as u64);
     rep.sample(json!({"key": "[fr]{{ v, currency(width: narrow; currency_code: EUR) }}", "probe": "cmp(id, td_string!(Locale::fr_CA, f27, v = 1234567.891f64).to_string(), format!(\"[fr]{}\", d_cur(\"fr-CA\", CurrencyWidth::Narrow, \"EUR\", 1234567.891)))"}));
     let mut cov = serde_json::Map::new();
-    cov.insert("rule".into(), json!(format!("{n_cases} formatter declarations (every name x every documented argument value + omitted + invalid, unknown argument, swapped order) as keys of a project with locales en, fr, de, ja, ar, bn (non-Latin default digits) and fr-CA (all keys null, inherits fr: fr's declaration rendered for fr-CA); for each key x locale x values (numbers 1234567.891, 0, 42, -42; a fixed date, time, datetime; lists of 3, 1, 2, 0 items) td_string! (all), td! -> html and td_format_string! / td_format_display! / td_format! -> html (quick: the first two declarations of every family and every second or third of the rest) are compared inside the probe with a direct ICU4X call for the locale being rendered; on a context: for the first declaration of every family and every ordered pair of 4 locales, a t_format! / tu_format! / t! view created under the first locale and rendered after set_locale to the second must format for the second; cache histories: every sequence of length <= {} over 6 number-formatter lookups that collide pairwise on locale or on options, each element compared with its direct-ICU value whatever ran before; the number / currency / list declarations again in a probe built WITHOUT icu_compiled_data whose formatters come from a derived IcuDataProvider (set_icu_data_provider)", tier.pick(4, 5))));
+    cov.insert("rule".into(), json!(format!("{n_cases} formatter declarations (every name x every documented argument value + omitted + invalid, unknown argument, swapped order) as keys of a project with locales en, fr, de, ja, ar, bn (non-Latin default digits) and fr-CA (all keys null, inherits fr: fr's declaration rendered for fr-CA); for each key x locale x values (numbers 1234567.891, 0, 42, -42; a fixed date, time, datetime; lists of 3, 1, 2, 0 items) td_string! (all), td! -> html and td_format_string! / td_format_display! / td_format! -> html (quick: the first two declarations of every family and every second or third of the rest) are compared inside the probe with a direct ICU4X call for the locale being rendered; on a context: for the first declaration of every family and every ordered pair of 4 locales, a t_format! / tu_format! / t! view created under the first locale and rendered after set_locale to the second must format for the second; cache histories: every sequence of length <= {} over 6 number-formatter lookups that collide pairwise on locale or on options, each element compared with its direct-ICU value whatever ran before; the number / currency / list declarations again in a probe built WITHOUT icu_compiled_data whose formatters come from a derived IcuDataProvider (set_icu_data_provider) - on the registering thread and on threads spawned afterwards", tier.pick(4, 5))));
     cov.insert("exhaustive".into(), json!(tier == Tier::Thorough));
     rep.finish(cov, &["ICU4X formatting with compiled data is the reference (trusted base)", "thread interleavings of the cache are the loom engine's part of this check"])
 }
@@ -1974,6 +2107,39 @@ fn c07_c08(tier: Tier, pid: &str) -> i32 {
         ],
     );
     p.set_file(None, "de", vec![("k1".into(), Val::Null), ("k2".into(), s(vec![comp("b", vec![var("x")])])), ("k3".into(), Val::Null), ("k4".into(), Val::Null), ("k6".into(), Val::Null), ("g".into(), Val::Null)]);
+    // the same component used several times in one value - side by side, nested in itself, nested in another one and
+    // used again later (either order): the builder has ONE field per component, the generated view shares it
+    {
+        fn names(segs: &[Seg], out: &mut Vec<String>) {
+            for sg in segs {
+                if let Seg::Comp { name, children, .. } = sg {
+                    out.push(name.clone());
+                    names(children, out);
+                }
+            }
+        }
+        let mut k = 0usize;
+        for n in 2..=tier.pick(3, 4) {
+            for f in forests(n, &["x"], &["b", "i"]) {
+                let mut ns = vec![];
+                names(&f, &mut ns);
+                let distinct: std::collections::BTreeSet<&String> = ns.iter().collect();
+                if ns.len() < 2 || distinct.len() == ns.len() {
+                    continue;
+                }
+                let mut a = f.clone();
+                let mut c0 = k;
+                label_texts(&mut a, &format!("en.r{k}"), &[""], &mut c0);
+                let mut b: Vec<Seg> = f.iter().rev().cloned().collect();
+                let mut c1 = k;
+                label_texts(&mut b, &format!("fr.r{k}"), &[""], &mut c1);
+                p.files.get_mut(&(None, "en".to_string())).unwrap().push((format!("r{k}"), s(a)));
+                p.files.get_mut(&(None, "fr".to_string())).unwrap().push((format!("r{k}"), s(b)));
+                p.files.get_mut(&(None, "de".to_string())).unwrap().push((format!("r{k}"), Val::Null));
+                k += 1;
+            }
+        }
+    }
     let m = Model::new(&p);
     let mut c = Case::new(&format!("{}_{}", pid.to_lowercase(), tier.name()), p.clone());
     // positive: exactly the union compiles and renders in every locale
@@ -1981,6 +2147,11 @@ fn c07_c08(tier: Tier, pid: &str) -> i32 {
     // negative bins: omit each member in turn / unknown argument / unknown key / surplus key
     let mut negatives: Vec<(String, String, &'static str)> = vec![]; // (bin name, statement, expected reason substring)
     for path in m.default_keys(&None) {
+        // (the repeated-component keys are positive probes only: one [[bin]] per omitted argument of each would
+        // multiply the compile time for no new shape of argument set)
+        if path[0].len() > 1 && path[0].starts_with('r') && path[0][1..].chars().all(|ch| ch.is_ascii_digit()) {
+            continue;
+        }
         let sig = key_sig(&m, &None, &path);
         let key = key_path_tokens(&None, &path);
         let Some((tail, _)) = args_for(&sig, Flavour::TdString, Num::I(0)) else { continue };
@@ -2003,7 +2174,13 @@ fn c07_c08(tier: Tier, pid: &str) -> i32 {
     }
     let name = c.probe.name.clone();
     let dir = c.probe.dir();
-    execute(&rep, pid, vec![c]);
+    if !execute_reporting(&rep, pid, vec![c]).is_empty() {
+        // the crate holding load_locales!() does not compile at all (reported above): no bin of it can tell anything
+        let mut cov = serde_json::Map::new();
+        cov.insert("rule".into(), json!("the probe crate did not compile: negative probes not run"));
+        cov.insert("exhaustive".into(), json!(false));
+        return rep.finish(cov, &[]);
+    }
     let bins: Vec<String> = negatives.iter().map(|n| n.0.clone()).collect();
     let res = check_bins(&name, &bins);
     for (bin, stmt, why) in &negatives {
@@ -2025,7 +2202,7 @@ fn c07_c08(tier: Tier, pid: &str) -> i32 {
     rep.sample(json!({"must_not_compile": negatives[0].1, "reason": negatives[0].2}));
     rep.sample(json!({"must_not_compile": "let _ = td_string!(Locale::fr, only_fr).to_string();", "reason": "surplus key is unreachable"}));
     let mut cov = serde_json::Map::new();
-    cov.insert("rule".into(), json!("three-locale project whose keys mix kinds across locales (string / variables / components / range / plural / renamed-count foreign key / null) plus a surplus key and a group; positive: every default-locale key with exactly the union of arguments compiles and renders the reference text in every locale (td_string!, td!); negative: one [[bin]] per omitted argument of every key, per unknown argument, and for a surplus key, a misspelt key, a group used as a value and a value used as a group - each checked with `cargo check --message-format=json` and required NOT to compile (a positive control bin must compile)"));
+    cov.insert("rule".into(), json!("three-locale project whose keys mix kinds across locales (string / variables / components / range / plural / renamed-count foreign key / null) plus a surplus key and a group, plus every forest of <= 3 (thorough 4) nodes over {text, x, <b>, <i>} in which a component name occurs more than once (side by side, nested in itself, nested in another and used again later; the other locale holds the mirrored value); positive: every default-locale key with exactly the union of arguments compiles and renders the reference text in every locale (td_string!, td!); negative: one [[bin]] per omitted argument of every key, per unknown argument, and for a surplus key, a misspelt key, a group used as a value and a value used as a group - each checked with `cargo check --message-format=json` and required NOT to compile (a positive control bin must compile)"));
     cov.insert("exhaustive".into(), json!(true));
     rep.finish(cov, &["the compile error of a negative probe is attributed to the probed call: each bin contains nothing else"])
 }
